@@ -118,7 +118,14 @@ func (c *RevisionCacheOrchestrator) triggerMemoryEviction() {
 	defer c.evictionLock.Unlock()
 
 	var numBytesRemoved int64
+	if base.VerifOn {
+		verifAtomLock()
+	}
 	bytesNeededToEvict := c.memoryController.bytesToEvict()
+	if base.VerifOn {
+		verifRCAtomic(c.revisionCache, "MeLock", nil, "need", bytesNeededToEvict)
+		verifAtomUnlock()
+	}
 	if bytesNeededToEvict == 0 {
 		// a different goroutine has evicted enough already
 		return
@@ -131,7 +138,14 @@ func (c *RevisionCacheOrchestrator) triggerMemoryEviction() {
 		}
 		numBytesRemoved += bytes
 	}
+	if base.VerifOn {
+		verifAtomLock()
+	}
 	c.memoryController.decrementBytesCount(numBytesRemoved)
+	if base.VerifOn {
+		verifRCAtomic(c.revisionCache, "MeFin", nil, "freed", numBytesRemoved)
+		verifAtomUnlock()
+	}
 }
 
 // _evictOneItem removes one item from either the revision or delta cache using round-robin
